@@ -106,6 +106,21 @@ def run(ctx, b, broken):
             junk = ctx.rng.choice([" @", " `", " \\", " /* c */", " x", " ]] }", " 3 4 @", " \"a\" \"b\"", " 1 2 x", " ;"])
             ctx.count("mutation:directive-junk")
             must_reject("\n".join(lines[:i] + [lines[i] + junk] + lines[i + 1:]), f"junk {junk!r} follows a line directive", True)
+    # texts with compiler-extension keywords (rejected as they are): whatever is done about such keywords, brackets inside
+    # and around them must still nest and balance, and nothing after them may be swallowed
+    EXT = ["__attribute__ ( ( aligned ( 8 ) ) ) int x ;", "int y __attribute__ ( ( unused ) ) ;", "int a ; __attribute__ ( ( noreturn ) ) void die ( void ) ; int b ;",
+           "__extension__ int z ;", "__asm__ ( \"nop\" ) ;", "void f ( void ) { __asm__ ( \"nop\" : : ) ; }", "__typeof__ ( x ) w ;", "int __declspec ( dllexport ) v ;",
+           "struct S { int m ; } __attribute__ ( ( packed ) ) ;", "int f ( int a __attribute__ ( ( unused ) ) ) { return a ; }", "__inline int g ( void ) { return 1 ; }",
+           "_Pragma ( \"x\" ) int q ;", "__builtin_va_list ap ;", "int r = __builtin_offsetof ( struct S , m ) ;"]
+    for base in EXT:
+        spx = base.split(" ")
+        idxs = [i for i, s_ in enumerate(spx) if s_ in OPEN + CLOSE]
+        for i in idxs:
+            ctx.count("mutation:bracket-in-extension-text")
+            must_reject(" ".join(spx[:i] + spx[i + 1:]), f"bracket token {i} ({spx[i]}) was deleted", True)
+            other = ctx.rng.choice([c for c in (OPEN if spx[i] in OPEN else CLOSE) if c != spx[i]])
+            must_reject(" ".join(spx[:i] + [other] + spx[i + 1:]), f"bracket token {i} ({spx[i]}) was replaced by {other}", True)
+            must_reject(" ".join(spx[:i] + [spx[i]] + spx[i:]), f"bracket token {i} ({spx[i]}) was duplicated", True)
     L = 4 if ctx.tier == "quick" else 6
     ctxs = [("int v = 1 ", " ;", "expression"), ("void f(void){ x ", " ; }", "statement"), ("int d ", " ;", "declarator")]
     for n in range(1, L + 1):
